@@ -33,7 +33,12 @@ type Data struct {
 var counters engine.Counter
 
 var alphabet = []byte{'{', '}', '[', ']', ',', ':', '"', '\\', '/', '0', '1', '-', '+', '.', 'e', 'E',
-	't', 'r', 'u', 'f', 'a', 'l', 's', 'n', ' ', '\n', '\r', '\t', 0x00, 0x1f, 0x7f, 0x80, 0xc3, 0xa9, 0xff}
+	't', 'r', 'u', 'f', 'a', 'l', 's', 'n', ' ', '\n', '\r', '\t', 0x00, 0x1f, 0x7f, 0x80, 0xc3, 0xa9, 0xff,
+	0x0b, 0x0c} // VT and FF: white space to many lexers, not to JSON
+
+// separators: multi-byte sequences other grammars treat as white space or comments; each is inserted
+// at every position of every corpus document of at most 60 bytes.
+var separators = []string{"\u00a0", "\u0085", "\u2028", "\u2029", "\ufeff", "\u3000", "\u1680", "\u200b", "/*c*/", "//c\n", "#c\n"}
 
 func mk(b []byte) engine.Case {
 	c := append([]byte(nil), b...)
@@ -50,6 +55,8 @@ func corpus() []string {
 		`"\"\\\/\b\f\n\r\t"`, `"Aé€"`, `"😀"`, `"\ud83d"`, `"\ude00"`, `"\ud83dA"`,
 		`"é😀"`, "\"a b\"", `"\u0000"`, `"${a}"`, `"%{if true}x%{endif}"`, `"$${a}"`, `"${"`, `"a${n}b"`,
 		`{"a":1,"a":2}`, `{"${a}":1}`, `{"a":{"x":1,"x":2}}`, `[{"k":1,"k":1}]`,
+		// names that differ as code points and are the same string after NFC normalisation
+		"{\"\u00e9\":1,\"e\u0301\":2}", "{\"e\u0301\":1,\"\u00e9\":2}", "[{\"a\":{\"\u212b\":1,\"\u00c5\":2}}]", "{\"a\u0323\u0307\":1,\"a\u0307\u0323\":2}", `{"\u00e9":1,"e\u0301":2}`,
 		`1.5`, `-1.5e3`, `1E+2`, `1e-2`, `0.0`, `10`, `1e0`, `0e0`, `-0.0e-0`, `123456789012345678901234567890`,
 		`0.1`, `1e308`, `1e-400`, `1e400`,
 		`9007199254740993`, `-9007199254740993`, `9223372036854775807`, `9223372036854775808`, `123456789012345678`, `18446744073709551615`, `4294967296`, `-2147483649`,
@@ -82,6 +89,15 @@ func gen(tier string, emit func(engine.Case) bool) {
 		}
 		if len(b) > 200 && tier != "thorough" {
 			continue
+		}
+		if len(b) <= 60 {
+			for i := 0; i <= len(b); i++ {
+				for _, sep := range separators {
+					if !emit(mk([]byte(string(b[:i]) + sep + string(b[i:])))) {
+						return
+					}
+				}
+			}
 		}
 		for i := 0; i <= len(b); i++ {
 			if i < len(b) {
@@ -508,7 +524,7 @@ func main() {
 		ID:        "C13",
 		Title:     "The JSON syntax accepts exactly JSON and maps literals faithfully",
 		Technique: "bounded exhaustive enumeration of byte strings and single-byte edits, differential against an independent RFC 8259 recogniser/decoder",
-		Rule: "all byte strings of length <= 4 (quick) / <= 5 (thorough) over a 35-byte JSON-relevant alphabet; a corpus of grammar-generated documents with every single-byte delete/insert/replace; all template-relevant strings of length <= 3/4 as JSON strings and object keys. " +
+		Rule: "all byte strings of length <= 4 (quick) / <= 5 (thorough) over a 37-byte JSON-relevant alphabet (incl. VT, FF); a corpus of grammar-generated documents with every single-byte delete/insert/replace and every insertion of 11 multi-byte non-JSON separators (Unicode spaces, BOM, comments); all template-relevant strings of length <= 3/4 as JSON strings and object keys. " +
 			"Each is run through json.ParseExpression, json.Parse, Value(nil) and Value(ctx). Non-trivial = the text is accepted; distinct = distinct (literal value, template-mode value) observations.",
 		Assumptions: []string{"go-cty number parsing/conversion, encoding/json.Valid and unicode/utf8 are trusted (used to cross-check the reference recogniser)", "hclsyntax.ParseTemplate is the oracle for template-mode strings, as the property states"},
 		Gen:         gen,
